@@ -101,6 +101,11 @@ type vkMix struct {
 	B uint16
 	C [3]byte
 }
+type vkNest struct {
+	P vkPad
+	C int8
+	D [2]vkPad
+}
 type vkNamed int
 type vkStr struct {
 	ID   int
@@ -213,6 +218,52 @@ func TestVerifKeys(t *testing.T) {
 				return pool[j]
 			}
 			return vkPad{int8(i), ival(i)}
+		}, nil)
+		apool := make([][2]vkPad, 32)
+		vkeysRun(tr, "array-of-padded-structs", r, 30, func(i, v int) [2]vkPad {
+			switch v {
+			case 1:
+				p := new([2]vkPad)
+				p[1].B = ival(i)
+				p[1].A = int8(i)
+				p[0].A = int8(i + 3)
+				p[0].B = int64(i)
+				return *p
+			case 2:
+				j := i % len(apool)
+				apool[j] = [2]vkPad{{A: -1, B: -1}, {A: -1, B: -1}}
+				apool[j][0].A = int8(i + 3)
+				apool[j][0].B = int64(i)
+				apool[j][1].A = int8(i)
+				apool[j][1].B = ival(i)
+				return apool[j]
+			}
+			return [2]vkPad{{int8(i + 3), int64(i)}, {int8(i), ival(i)}}
+		}, nil)
+		// arrays of length 1 are passed in registers like the struct itself: the callee's spill slot
+		// has arbitrary padding bytes
+		vkeysRun(tr, "array-len1-of-padded-struct", r, 30, func(i, v int) [1]vkPad {
+			if v == 1 {
+				var a [1]vkPad
+				a[0].B = ival(i)
+				a[0].A = int8(i)
+				return a
+			}
+			return [1]vkPad{{int8(i), ival(i)}}
+		}, nil)
+		npool := make([]vkNest, 32)
+		vkeysRun(tr, "struct-nesting-a-padded-struct", r, 30, func(i, v int) vkNest {
+			if v == 2 {
+				j := i % len(npool)
+				npool[j] = vkNest{P: vkPad{A: -1, B: -1}, C: -1, D: [2]vkPad{{A: -1, B: -1}, {A: -1, B: -1}}}
+				npool[j].P.A = int8(i)
+				npool[j].P.B = ival(i)
+				npool[j].C = int8(i * 3)
+				npool[j].D[0] = vkPad{int8(i), 5}
+				npool[j].D[1] = vkPad{int8(i + 1), 6}
+				return npool[j]
+			}
+			return vkNest{P: vkPad{int8(i), ival(i)}, C: int8(i * 3), D: [2]vkPad{{int8(i), 5}, {int8(i + 1), 6}}}
 		}, nil)
 		vkeysRun(tr, "struct-mixed", r, 30, func(i, v int) vkMix {
 			k := vkMix{i%2 == 0, uint16(ival(i)), [3]byte{byte(i), byte(i >> 1), 7}}
